@@ -48,7 +48,7 @@ def rule_to_range(ctx, f, run):
                 true_t = t["otherwise"] if 0 in arms else arms.get(1)
                 rel.append((true_t, T.canon_place(b, a), T.canon_place(b, c)))
     sites = [(i, st) for i, j, st in F.stmts(b) if st[0] == "assign" and st[2][0] == "aggregate" and st[2][1].get("adt") == "std::ops::Range"]
-    ctx.floor("C01-G5", len(sites), 4, "Range values built in to_range")
+    ctx.floor("C01-G5", len(sites), 1, "Range values built in to_range")
 
     def holds(bi, x, y):
         return any(cfg.dominates(tb, bi) and a == x and c == y for tb, a, c in rel)
